@@ -297,6 +297,38 @@ def run(ctx):
                     res.violations.append({"what": "two different bindings share one signature",
                                            "input": {"function": "def f(a, b=0): return repr((a, b))", "call_1": prev[1], "call_2": call, "signature": sig}, "kf": None})
                 seen_sig.setdefault((kind, sig), (key, call))
+    # container arguments whose keys differ in type only ({2020: x} / {'2020': x}), or in order of insertion: different bindings
+    with ws.Workspace("c13d") as w:
+        from collections import OrderedDict as _OD
+        tables = [{2020: 0.2}, {"2020": 0.2}, {None: 1}, {"None": 1}, {(1, 2): 1}, {"(1, 2)": 1}, {1.5: "a"}, {"1.5": "a"},
+                  {"a": 1, "b": 2}, {"b": 2, "a": 1}, {"a": [1, 2]}, {"a": [1, 3], "b": None}, {0: "z"}, {"0": "z"}]
+        # (an OrderedDict with the items of a dict in the same order, and a list of pairs, are documented identifications / known
+        # findings of C05: not used here)
+        src = "import dds\n\ndef f(table, k=0):\n    return repr((type(table).__name__, [(repr(a), repr(b)) for (a, b) in (table.items() if hasattr(table, 'items') else table)], k))\n"
+        mod = w.write_module(w.unique("c13d"), src)
+        seen_t = {}
+        for ti, t in enumerate(tables):
+            for spelling in ("pos", "kw"):
+                store.synced.clear()
+                try:
+                    got = dds.keep("/t%d" % ti, mod.f, t) if spelling == "pos" else dds.keep("/t%d" % ti, mod.f, table=t, k=0)
+                    sig = store.synced[-1]["/t%d" % ti]
+                except BaseException as ex:
+                    got, sig = "EXC:" + type(ex).__name__ + ":" + str(ex)[:80], None
+                    ws.reset_dds_state()
+                res.evaluations += 1
+                res.nontrivial("table %d %s" % (ti, spelling))
+                want = mod.f(t)
+                if got != want:
+                    res.violations.append({"what": "a kept call with the argument %r returned %r, plain execution gives %r" % (t, got, want),
+                                           "input": {"function": src, "argument": repr(t), "spelling": spelling}, "kf": None})
+                    continue
+                prev = seen_t.get(sig)
+                if prev is not None and prev != ti and repr(tables[prev]) != repr(t):
+                    # (documented identification: a list of pairs is not a dict; dict order matters for dds_hash)
+                    res.violations.append({"what": "two different bindings share one signature",
+                                           "input": {"function": src, "argument_1": repr(tables[prev]), "argument_2": repr(t), "signature": sig}, "kf": None})
+                seen_t.setdefault(sig, ti)
     # unsupported parameter kinds (unit level only)
     ns = {}
     exec("def g1(a, *rest):\n    return 1\ndef g2(a, *, k=1):\n    return 1\ndef g3(a, **kw):\n    return 1\n", ns)
